@@ -750,4 +750,90 @@ theorem feedN_spec (c : Cfg) (hcap : 0 < c.cap) (p n : Nat) (s : State) (h : Fee
     · rw [hwpc' (by rw [e]; exact hne), e]
     · exact absurd e hne
 
+/-! ## the hand-over: accepted ⇒ in the pipeline; a full channel blocks the producer -/
+
+theorem chan_le_cap_fire (c : Cfg) (s : State) (st : Step) (h : s.chan.length ≤ c.cap)
+    (hen : enabled c s st = true) : (fire c s st).chan.length ≤ c.cap := by
+  cases st with
+  | publish p =>
+    simp only [enabled, Bool.and_eq_true, decide_eq_true_eq] at hen
+    simp only [fire, List.length_append, List.length_singleton]
+    omega
+  | batchRecv => simp only [fire, List.length_tail]; omega
+  | writerSelect =>
+    simp only [fire]
+    split
+    · split
+      · simpa using h
+      · exact h
+    · exact h
+  | writerPop =>
+    simp only [fire]
+    split
+    · split <;> exact h
+    · simpa using h
+  | writerWake =>
+    simp only [fire]
+    split
+    · exact h
+    · simpa using h
+  | batchPush => exact h
+  | close => exact h
+  | batchDone => exact h
+  | broadcast => exact h
+  | writeDone => exact h
+  | closeReturn => exact h
+
+/-- The channel never holds more than its capacity, after any schedule. -/
+theorem chan_le_cap_run (c : Cfg) (s : State) (sched : List Step) (h : s.chan.length ≤ c.cap) :
+    (run c s sched).chan.length ≤ c.cap := by
+  induction sched generalizing s with
+  | nil => exact h
+  | cons st rest ih =>
+    apply ih
+    unfold step; split
+    · exact chan_le_cap_fire c s st h ‹_›
+    · exact h
+
+theorem chan_le_cap_reach (c : Cfg) (sched : List Step) : (run c init sched).chan.length ≤ c.cap :=
+  chan_le_cap_run c init sched (by simp [init])
+
+theorem countOf_append (p : Nat) (a b : List Ev) : countOf p (a ++ b) = countOf p a + countOf p b := by
+  simp [countOf, List.countP_append]
+
+theorem sum_indicator (a n : Nat) :
+    ((List.range n).map fun p => if a == p then 1 else 0).sum = if a < n then 1 else 0 := by
+  induction n with
+  | zero => simp
+  | succ n ih =>
+    rw [List.range_succ, List.map_append, List.sum_append, ih]
+    simp only [List.map_cons, List.map_nil, List.sum_cons, List.sum_nil, beq_iff_eq]
+    split <;> split <;> split <;> omega
+
+theorem sum_map_add (l : List Nat) (f g : Nat → Nat) :
+    (l.map fun p => f p + g p).sum = (l.map f).sum + (l.map g).sum := by
+  induction l with
+  | nil => rfl
+  | cons a l ih => simp only [List.map_cons, List.sum_cons, ih]; omega
+
+/-- The per-producer counts of any `np` producers add up to at most the number of events. -/
+theorem sum_counts_le (np : Nat) (l : List Ev) :
+    ((List.range np).map fun p => countOf p l).sum ≤ l.length := by
+  induction l with
+  | nil =>
+    have : ∀ l : List Nat, (l.map fun _ => 0).sum = 0 := by
+      intro l; induction l with
+      | nil => rfl
+      | cons a l ih => simp [ih]
+    simp [countOf, this]
+  | cons e l ih =>
+    have h : ((List.range np).map fun p => countOf p (e :: l)) =
+        ((List.range np).map fun p => countOf p l + (if e.1 == p then 1 else 0)) := by
+      apply List.map_congr_left
+      intro p _
+      simp only [countOf, List.countP_cons]
+    rw [h, sum_map_add, sum_indicator]
+    simp only [List.length_cons]
+    split <;> omega
+
 end Writer
